@@ -40,9 +40,10 @@ X_ChangeZoomSp(e) ==
   THEN Ok(e) /\ e.a.kept /\ ListIsSet(e.r, Exp_ChangeZoomSp(e))
   ELSE Err(e) /\ e.r = <<>>
 
-X_HorizontalZoom(e) == Ok(e) /\ e.r = HorizontalZoomSeq(e.a.zi, e.a.x, e.a.y, e.a.zo)
+\* (the library emits them row by row, but C03 does not promise an order: compared as sets, no duplicates)
+X_HorizontalZoom(e) == Ok(e) /\ ListIsSet(e.r, HorizontalZoomSet(e.a.zi, e.a.x, e.a.y, e.a.zo))
 X_HorizontalZoomMinMax(e) == Ok(e) /\ e.r = HorizontalZoomMinMax(e.a.zi, e.a.x, e.a.y, e.a.zo)
-X_VerticalZoom(e) == Ok(e) /\ e.r = VerticalZoomSeq(e.a.zi, e.a.f, e.a.zo)
+X_VerticalZoom(e) == Ok(e) /\ ListIsSet(e.r, VerticalZoomSet(e.a.zi, e.a.f, e.a.zo))
 
 \* ---- C07 / C08 ------------------------------------------------------------
 \* bag equality of two sequences
